@@ -41,7 +41,7 @@ theorem srcOK_fluent (g : Geom) (v : Nat) (hv : g.vrows = some v) (h1 : g.nRowId
 def DistOKI (I : List (String × Geom × Nat)) (dev : Device) (a : DistArgs) : Prop :=
   a.src ≠ a.dst ∧ 0 ≤ a.srcCol ∧
   ∀ nS gS lS nD gD lD, I[a.src]? = some (nS, gS, lS) → I[a.dst]? = some (nD, gD, lD) →
-    SrcOK dev gS ∧ ∀ ps, (a.dstWells.flattenF.mapM fun w => dev.pos gD w) = .ok ps → ps.Nodup
+    (∀ v, gS.vrows = some v → SrcOK dev gS) ∧ (PosInj dev gD ∨ ∀ ps, (a.dstWells.flattenF.mapM fun w => dev.pos gD w) = .ok ps → ps.Nodup)
 
 /-- Operations covered by the replay theorems, now including `distribute`. -/
 def trackedI (I : List (String × Geom × Nat)) (dev : Device) : Op → Prop
@@ -162,6 +162,82 @@ theorem replay_volumes_dist (w₀ : World) (hwf : WF w₀) (h0 : w₀.recs = [])
         exact ih w' hwf' hok (by rw [hcfg]; exact hdev) (hinv rfl) hI'
           (fun o ho => hops o (List.mem_cons_of_mem _ ho))
 
+/-- On an **EVO** the side conditions of a `distribute` reduce to: source and destination are different labware,
+    the column index is not negative, and the source is a trough with at most 26 virtual rows (or not a trough at
+    all, in which case `distribute` refuses the call).  Nothing is assumed about the destination wells: a well listed
+    twice is refused by `distribute` (F13), different wells have different EVO numbers (`posInj_evo`). -/
+def DistEvo (I : List (String × Geom × Nat)) (a : DistArgs) : Prop :=
+  a.src ≠ a.dst ∧ 0 ≤ a.srcCol ∧ ∀ nS gS lS, I[a.src]? = some (nS, gS, lS) → ∀ v, gS.vrows = some v → v ≤ 26
+
+theorem distOKI_of_evo {I : List (String × Geom × Nat)} {a : DistArgs} (h : DistEvo I a) : DistOKI I .evo a := by
+  obtain ⟨hne, hc, h26⟩ := h
+  refine ⟨hne, hc, ?_⟩
+  intro nS gS lS nD gD lD hS _
+  exact ⟨fun v hv => srcOK_evo gS v hv (h26 _ _ _ hS v hv), Or.inl (posInj_evo gD)⟩
+
+/-- On a **Fluent**: additionally the source trough has a single row ID (else known finding F3) and the destination is
+    not a trough with several row IDs (else known finding F14). -/
+def DistFluent (I : List (String × Geom × Nat)) (a : DistArgs) : Prop :=
+  a.src ≠ a.dst ∧ 0 ≤ a.srcCol
+  ∧ (∀ nS gS lS, I[a.src]? = some (nS, gS, lS) → gS.vrows.isSome → gS.nRowIds = 1)
+  ∧ (∀ nD gD lD, I[a.dst]? = some (nD, gD, lD) → gD.isTrough = false ∨ gD.nRowIds = 1)
+
+theorem distOKI_of_fluent {I : List (String × Geom × Nat)} {a : DistArgs} (h : DistFluent I a) :
+    DistOKI I .fluent a := by
+  obtain ⟨hne, hc, hsrc, hdst⟩ := h
+  refine ⟨hne, hc, ?_⟩
+  intro nS gS lS nD gD lD hS hD
+  refine ⟨?_, Or.inl ?_⟩
+  · intro v hv
+    exact srcOK_fluent gS v hv (hsrc _ _ _ hS (by rw [hv]; rfl))
+  · rcases hdst _ _ _ hD with ht | h1'
+    · exact posInj_fluent_plate gD ht
+    · exact posInj_fluent_trough1 gD h1'
+
+/-- Operations covered on an EVO / on a Fluent, with the device-specific side conditions spelled out. -/
+def trackedEvo (I : List (String × Geom × Nat)) : Op → Prop
+  | .distribute a => DistEvo I a
+  | op => tracked op = true
+
+def trackedFluent (I : List (String × Geom × Nat)) : Op → Prop
+  | .distribute a => DistFluent I a
+  | op => tracked op = true
+
+theorem trackedI_of_evo {I : List (String × Geom × Nat)} {op : Op} (h : trackedEvo I op) : trackedI I .evo op := by
+  cases op <;> first | exact distOKI_of_evo h | exact h
+
+theorem trackedI_of_fluent {I : List (String × Geom × Nat)} {op : Op} (h : trackedFluent I op) :
+    trackedI I .fluent op := by
+  cases op <;> first | exact distOKI_of_fluent h | exact h
+
+/-- **C03 on an EVO, `distribute` included**: nothing is assumed about the destination wells of a `distribute`. -/
+theorem abort_safe_evo (w₀ : World) (hwf : WF w₀) (h0 : w₀.recs = []) (hdev : w₀.cfg.dev = .evo) (ops : List Op)
+    (hops : ∀ op ∈ ops, trackedEvo (info w₀) op) :
+    ∀ s ∈ statesOf w₀ ops, Replayable .evo w₀.labs s.1 := by
+  have := abort_safe_dist w₀ hwf h0 ops (fun op hop => by rw [hdev]; exact trackedI_of_evo (hops op hop))
+  rw [hdev] at this; exact this
+
+/-- **C01 (volumes) on an EVO, `distribute` included.** -/
+theorem replay_volumes_evo (w₀ : World) (hwf : WF w₀) (h0 : w₀.recs = []) (hdev : w₀.cfg.dev = .evo) (ops : List Op)
+    (hops : ∀ op ∈ ops, trackedEvo (info w₀) op) (hok : (w₀.run ops).2 = none) :
+    ∃ st, (RState.ofLabs w₀.labs).run .evo (w₀.run ops).1.recs = some st ∧ Match st (w₀.run ops).1 := by
+  have := replay_volumes_dist w₀ hwf h0 ops (fun op hop => by rw [hdev]; exact trackedI_of_evo (hops op hop)) hok
+  rw [hdev] at this; exact this
+
+/-- **C03 / C01 on a Fluent**, for `distribute` calls from one-row troughs into labware the Fluent numbers injectively
+    (the complement is the known findings F3 and F14). -/
+theorem abort_safe_fluent (w₀ : World) (hwf : WF w₀) (h0 : w₀.recs = []) (hdev : w₀.cfg.dev = .fluent) (ops : List Op)
+    (hops : ∀ op ∈ ops, trackedFluent (info w₀) op) :
+    ∀ s ∈ statesOf w₀ ops, Replayable .fluent w₀.labs s.1 := by
+  have := abort_safe_dist w₀ hwf h0 ops (fun op hop => by rw [hdev]; exact trackedI_of_fluent (hops op hop))
+  rw [hdev] at this; exact this
+
+theorem replay_volumes_fluent (w₀ : World) (hwf : WF w₀) (h0 : w₀.recs = []) (hdev : w₀.cfg.dev = .fluent)
+    (ops : List Op) (hops : ∀ op ∈ ops, trackedFluent (info w₀) op) (hok : (w₀.run ops).2 = none) :
+    ∃ st, (RState.ofLabs w₀.labs).run .fluent (w₀.run ops).1.recs = some st ∧ Match st (w₀.run ops).1 := by
+  have := replay_volumes_dist w₀ hwf h0 ops (fun op hop => by rw [hdev]; exact trackedI_of_fluent (hops op hop)) hok
+  rw [hdev] at this; exact this
+
 /-! Non-vacuity: a 4-virtual-row trough distributes into a plate on an EVO; the side conditions hold, the program
     runs, and the replay of its `R;` record reproduces the tracked volumes. -/
 def exDist : DistArgs := { src := 0, srcCol := 1, dst := 1, dstWells := .vec ["B02", "A01", "B03"], vol := ⟨25, false⟩, label := "d" }
@@ -174,13 +250,7 @@ example : trackedI (info C01.exW) C01.exW.cfg.dev (.distribute exDist) := by
   have hgD : gD = ⟨2, 3, none⟩ := by
     simp [info, sinfo, C01.exW, C01.exPlate, exDist] at hD; exact hD.2.1.symm
   subst hgS hgD
-  refine ⟨srcOK_evo _ 4 rfl (by omega), ?_⟩
-  intro ps hps
-  have : ps = [4, 1, 6] := by
-    have h : (exDist.dstWells.flattenF.mapM fun w => C01.exW.cfg.dev.pos (⟨2, 3, none⟩ : Geom) w) = .ok [4, 1, 6] := by
-      decide +kernel
-    rw [h] at hps; cases hps; rfl
-  subst this; decide
+  exact ⟨fun _ _ => srcOK_evo _ 4 rfl (by omega), Or.inl (posInj_evo _)⟩
 
 /- That this program runs to the end and that the replay of its `R;` record gives `[[5000, 4925], [25, 0, 0, 0, 25, 25]]`
    is checked by evaluation (`#eval` below agrees with the tracked volumes); `decide +kernel` does not reduce
